@@ -144,3 +144,84 @@ def packVal (slope nbits i v : Nat) : Nat := v + 2 ^ (nbits - 1) - slope * i
 def unpackVal (slope nbits i p : Nat) : Nat := p + slope * i - 2 ^ (nbits - 1)
 
 end TantivyModel.SSTable
+
+namespace TantivyModel.SSTable
+open TantivyModel
+
+/-! ### the writer's bit packer (`tantivy_bitpacker::BitPacker`) -/
+
+/-- `(x as u64).to_le_bytes()` -/
+def le8 (x : Nat) : List UInt8 :=
+  [UInt8.ofNat (x % 256), UInt8.ofNat (x / 256 % 256), UInt8.ofNat (x / 65536 % 256),
+   UInt8.ofNat (x / 16777216 % 256), UInt8.ofNat (x / 4294967296 % 256),
+   UInt8.ofNat (x / 1099511627776 % 256), UInt8.ofNat (x / 281474976710656 % 256),
+   UInt8.ofNat (x / 72057594037927936 % 256)]
+
+structure BitPackerSt where
+  buf : Nat := 0        -- mini_buffer (u64)
+  written : Nat := 0    -- mini_buffer_written
+  out : List UInt8 := []
+
+/-- mirrors: BitPacker::write (`|` of disjoint bit ranges written as `+`; `wrapping_shl` as
+`% 2^64`): a value that does not fit the 64-bit mini buffer is split, the full buffer is emitted -/
+def BitPackerSt.write (s : BitPackerSt) (v n : Nat) : BitPackerSt :=
+  if s.written + n > 64 then
+    { buf := v / 2 ^ (64 - s.written), written := s.written + n - 64,
+      out := s.out ++ le8 ((s.buf + v * 2 ^ s.written) % 2 ^ 64) }
+  else if s.written + n = 64 then
+    { buf := 0, written := 0, out := s.out ++ le8 (s.buf + v * 2 ^ s.written) }
+  else { buf := s.buf + v * 2 ^ s.written, written := s.written + n, out := s.out }
+
+/-- mirrors: BitPacker::flush — the used bytes of the mini buffer -/
+def BitPackerSt.flush (s : BitPackerSt) : List UInt8 :=
+  if s.written > 0 then s.out ++ (le8 s.buf).take ((s.written + 7) / 8) else s.out
+
+/-- the bytes written for a sequence of `(value, width)` fields -/
+def bitPack (fs : List (Nat × Nat)) : List UInt8 :=
+  (fs.foldl (fun (s : BitPackerSt) f => s.write f.1 f.2) {}).flush
+
+end TantivyModel.SSTable
+
+namespace TantivyModel.SSTable
+open TantivyModel
+
+/-! ### one store block as the writer lays it out (`BlockAddrStoreWriter::flush_block`) -/
+
+/-- the `(start deviation, ordinal deviation)` fields of the blocks after the reference block,
+block `i` (1-based inside the store block) predicted by `slope * i` -/
+def groupFieldsAux (rs rb os ob : Nat) (ref : BlockAddr) : Nat → List BlockAddr → List (Nat × Nat)
+  | _, [] => []
+  | i, a :: rest =>
+    (packVal rs rb i (a.start - ref.start), rb) :: (packVal os ob i (a.firstOrd - ref.firstOrd), ob) ::
+      groupFieldsAux rs rb os ob ref (i + 1) rest
+
+/-- all fields of a store block `ref :: more`: the pairs, then the end of the last block -/
+def groupFields (rs rb os ob : Nat) (ref : BlockAddr) (more : List BlockAddr) (lastStop : Nat) :
+    List (Nat × Nat) :=
+  groupFieldsAux rs rb os ob ref 1 more ++ [(packVal rs rb (more.length + 1) (lastStop - ref.start), rb)]
+
+/-- the metadata record of that store block (bit-packed data at offset 0) -/
+def groupMeta (rs rb os ob : Nat) (ref : BlockAddr) (more : List BlockAddr) : StoreMeta :=
+  { offset := 0, refStart := ref.start, refOrd := ref.firstOrd, rangeSlope := rs, ordSlope := os,
+    ordBits := ob, rangeBits := rb, blockLen := more.length }
+
+end TantivyModel.SSTable
+
+namespace TantivyModel.SSTable
+open TantivyModel
+
+/-- re-encode every store block of a decoded store with the writer model (the slopes and widths the
+real writer chose are read from the metadata) and compare with the bytes of the file -/
+def Store.reencodeOk (s : Store) : Bool :=
+  (List.range s.numGroups).all (fun g =>
+    let m := parseMeta (s.metas.drop (g * META_SIZE))
+    let ids := (List.range (m.blockLen + 1)).map (fun i => g * Gen.STORE_BLOCK_LEN + i)
+    let addrs := ids.filterMap s.get
+    match addrs with
+    | [] => false
+    | ref :: more =>
+      let lastStop := ((ref :: more).getLast?.map (·.stop)).getD 0
+      let bytes := bitPack (groupFields m.rangeSlope m.rangeBits m.ordSlope m.ordBits ref more lastStop)
+      addrs.length = m.blockLen + 1 && ((s.addrs.drop m.offset).take bytes.length == bytes))
+
+end TantivyModel.SSTable
